@@ -23,6 +23,9 @@ import (
 	"github.com/ethereum/go-ethereum/crypto"
 
 	distprecompile "github.com/haqq-network/haqq/precompiles/distribution"
+	clienttypes "github.com/cosmos/ibc-go/v7/modules/core/02-client/types"
+	transfertypes "github.com/cosmos/ibc-go/v7/modules/apps/transfer/types"
+	ics20precompile "github.com/haqq-network/haqq/precompiles/ics20"
 	stakingprecompile "github.com/haqq-network/haqq/precompiles/staking"
 	"github.com/haqq-network/haqq/testutil"
 	"github.com/haqq-network/haqq/utils"
@@ -36,6 +39,7 @@ func init() { register("evmexec", evmDriver) }
 // 0 O (tx signer)  1 P (another EOA)  2..4 script contracts C1..C3
 // 5 staking precompile  6 distribution precompile
 // 7 bonded pool  8 not-bonded pool  9 distribution module  10 evm module  11 fee collector
+// 12 ICS-20 precompile  13 escrow account of transfer/channel-0
 const (
 	aO = iota
 	aP
@@ -49,11 +53,14 @@ const (
 	aDistr
 	aEvm
 	aFeeColl
+	aPI
+	aEscrow
 	evmNActors
 )
 
 var evmActorName = []string{"O", "P", "C1", "C2", "C3", "staking-precompile", "distribution-precompile",
-	"bonded-pool", "not-bonded-pool", "distribution-module", "evm-module", "fee-collector"}
+	"bonded-pool", "not-bonded-pool", "distribution-module", "evm-module", "fee-collector",
+	"ics20-precompile", "ibc-escrow"}
 
 var (
 	evmKeyO, _ = crypto.HexToECDSA("b71c71a67e1177ad4e901695e1b4b9ee17ae16c6668d313eac2f96dbcda3f291")
@@ -74,11 +81,13 @@ func init() {
 	evmAddr[aDistr] = common.BytesToAddress(authtypes.NewModuleAddress(distrtypes.ModuleName))
 	evmAddr[aEvm] = common.BytesToAddress(authtypes.NewModuleAddress(evmtypes.ModuleName))
 	evmAddr[aFeeColl] = common.BytesToAddress(authtypes.NewModuleAddress(authtypes.FeeCollectorName))
+	evmAddr[aPI] = common.HexToAddress("0x0000000000000000000000000000000000000802")
+	evmAddr[aEscrow] = common.BytesToAddress(transfertypes.GetEscrowAddress("transfer", "channel-0"))
 }
 
 // ---------------------------------------------------------------- input
 type evmPCall struct {
-	Method string `json:"m"`             // delegate undelegate withdraw setwithdraw claim
+	Method string `json:"m"`             // delegate undelegate withdraw setwithdraw claim ibctransfer
 	Who    int    `json:"who"`           // the named delegator argument (actor)
 	Amt    string `json:"amt,omitempty"` // delegate / undelegate amount
 	To     int    `json:"to,omitempty"`  // setwithdraw target (actor)
@@ -98,7 +107,7 @@ type evmInstr struct {
 
 type evmGrant struct {
 	Grantee int    `json:"grantee"`
-	Kind    string `json:"kind"`            // delegate undelegate
+	Kind    string `json:"kind"`            // delegate undelegate transfer
 	Limit   string `json:"limit,omitempty"` // "" = unlimited
 }
 
@@ -137,6 +146,7 @@ type evmEnv struct {
 	valStr  string
 	sABI    abi.ABI
 	dABI    abi.ABI
+	iABI    abi.ABI
 }
 
 var evmBase *evmEnv
@@ -160,9 +170,13 @@ func evmBaseEnv() *evmEnv {
 	hdr.ProposerAddress = cons
 	e.Ctx = e.Ctx.WithBlockHeader(hdr).WithGasMeter(sdk.NewInfiniteGasMeter())
 	ee := &evmEnv{Env: e, valAddr: v.GetOperator(), valStr: v.OperatorAddress}
-	pcs := e.App.EvmKeeper.Precompiles(evmAddr[aPS], evmAddr[aPD])
+	pcs := e.App.EvmKeeper.Precompiles(evmAddr[aPS], evmAddr[aPD], evmAddr[aPI])
 	ee.sABI = pcs[evmAddr[aPS]].(*stakingprecompile.Precompile).ABI
 	ee.dABI = pcs[evmAddr[aPD]].(*distprecompile.Precompile).ABI
+	ee.iABI = pcs[evmAddr[aPI]].(*ics20precompile.Precompile).ABI
+	if err := setupIBCChannel(e); err != nil {
+		panic(err)
+	}
 	// zero commission so that rewards go to delegators
 	evmBase = ee
 	return ee
@@ -170,7 +184,7 @@ func evmBaseEnv() *evmEnv {
 
 func (b *evmEnv) fork() *evmEnv {
 	cctx, _ := b.Ctx.CacheContext()
-	return &evmEnv{Env: &Env{App: b.App, Ctx: cctx, ValPub: b.ValPub}, valAddr: b.valAddr, valStr: b.valStr, sABI: b.sABI, dABI: b.dABI}
+	return &evmEnv{Env: &Env{App: b.App, Ctx: cctx, ValPub: b.ValPub}, valAddr: b.valAddr, valStr: b.valStr, sABI: b.sABI, dABI: b.dABI, iABI: b.iABI}
 }
 
 func accOf(a int) sdk.AccAddress { return sdk.AccAddress(evmAddr[a].Bytes()) }
@@ -219,6 +233,19 @@ func (e *evmEnv) setup(s evmSetup) error {
 		}
 	}
 	for _, g := range s.Grants {
+		if g.Kind == "transfer" {
+			lim := transfertypes.UnboundedSpendLimit()
+			if g.Limit != "" {
+				lim = sdkmath.NewIntFromBigInt(bigOf(g.Limit))
+			}
+			ta := transfertypes.NewTransferAuthorization(transfertypes.Allocation{SourcePort: "transfer", SourceChannel: "channel-0",
+				SpendLimit: sdk.NewCoins(sdk.NewCoin(utils.BaseDenom, lim))})
+			exp := e.Ctx.BlockTime().Add(24 * time.Hour)
+			if err := e.App.AuthzKeeper.SaveGrant(e.Ctx, accOf(g.Grantee), accOf(aO), ta, &exp); err != nil {
+				return err
+			}
+			continue
+		}
 		var lim *sdk.Coin
 		if g.Limit != "" {
 			c := sdk.NewCoin(utils.BaseDenom, sdkmath.NewIntFromBigInt(bigOf(g.Limit)))
@@ -335,10 +362,12 @@ func (e *evmEnv) observe(ok bool, errStr string, supply0 *big.Int, slots map[[2]
 	}
 	o.Grants = []string{}
 	for g := aP; g <= aC3; g++ {
-		for _, kind := range []string{"delegate", "undelegate"} {
+		for _, kind := range []string{"delegate", "undelegate", "transfer"} {
 			url := sdk.MsgTypeURL(&stakingtypes.MsgDelegate{})
 			if kind == "undelegate" {
 				url = sdk.MsgTypeURL(&stakingtypes.MsgUndelegate{})
+			} else if kind == "transfer" {
+				url = sdk.MsgTypeURL(&transfertypes.MsgTransfer{})
 			}
 			az, _ := e.App.AuthzKeeper.GetAuthorization(e.Ctx, accOf(g), accOf(aO), url)
 			if az == nil {
@@ -347,6 +376,18 @@ func (e *evmEnv) observe(ok bool, errStr string, supply0 *big.Int, slots map[[2]
 			lim := "inf"
 			if sa, ok := az.(*stakingtypes.StakeAuthorization); ok && sa.MaxTokens != nil {
 				lim = sa.MaxTokens.Amount.String()
+			}
+			if ta, ok := az.(*transfertypes.TransferAuthorization); ok {
+				lim = "none"
+				for _, al := range ta.Allocations {
+					if al.SourceChannel == "channel-0" {
+						if l := al.SpendLimit.AmountOf(utils.BaseDenom); !l.Equal(transfertypes.UnboundedSpendLimit()) {
+							lim = l.String()
+						} else {
+							lim = "inf"
+						}
+					}
+				}
 			}
 			o.Grants = append(o.Grants, fmt.Sprintf("%d:%s:%s", g, kind, lim))
 		}
@@ -370,6 +411,10 @@ func (e *evmEnv) packP(p *evmPCall) (target int, data []byte) {
 	case "claim":
 		data, err = e.dABI.Pack("claimRewards", evmAddr[p.Who], uint32(10))
 		target = aPD
+	case "ibctransfer":
+		data, err = e.iABI.Pack("transfer", "transfer", "channel-0", utils.BaseDenom, bigOf(p.Amt), evmAddr[p.Who], "cosmos1receiver0",
+			clienttypes.NewHeight(1, 1000), uint64(0), "")
+		target = aPI
 	default:
 		panic("bad precompile method " + p.Method)
 	}
@@ -583,6 +628,8 @@ func coqPCall(p *evmPCall) string {
 		return fmt.Sprintf("(PSetWithdraw %s %s)", coqN(p.Who), coqN(p.To))
 	case "claim":
 		return fmt.Sprintf("(PClaim %s)", coqN(p.Who))
+	case "ibctransfer":
+		return fmt.Sprintf("(PTransfer %s %s)", coqN(p.Who), coqZ(bigOf(p.Amt)))
 	}
 	panic("method")
 }
@@ -696,7 +743,7 @@ func (in evmInput) coq(rewards []string, slots map[[2]uint64]bool) string {
 		if g.Limit != "" {
 			lim = "(Some " + coqZ(bigOf(g.Limit)) + ")"
 		}
-		gs = append(gs, fmt.Sprintf("(%s, %s, %s)", coqN(g.Grantee), coqBool(g.Kind == "delegate"), lim))
+		gs = append(gs, fmt.Sprintf("(%s, %s, %s)", coqN(g.Grantee), coqN(map[string]int{"undelegate": 0, "delegate": 1, "transfer": 2}[g.Kind]), lim))
 	}
 	ws := []string{}
 	for a, w := range in.Setup.Withdraw {
@@ -857,6 +904,9 @@ func (e *evmEnv) native(p *evmPCall) error {
 			return nil
 		}
 		msg = distrtypes.NewMsgWithdrawDelegatorReward(accOf(p.Who), e.valAddr)
+	case "ibctransfer":
+		msg = transfertypes.NewMsgTransfer("transfer", "channel-0", sdk.NewCoin(utils.BaseDenom, sdkmath.NewIntFromBigInt(bigOf(p.Amt))),
+			accOf(p.Who).String(), "cosmos1receiver0", clienttypes.NewHeight(1, 1000), 0, "")
 	}
 	_, err := e.runMsg(msg)
 	return err
@@ -940,6 +990,8 @@ func evmBalanceOracle(e *evmEnv, in evmInput, pre, obs evmObs, root *frameEv) st
 			payout(p.Who)
 		case "setwithdraw":
 			wd[p.Who] = p.To
+		case "ibctransfer":
+			move(p.Who, aEscrow, bigOf(p.Amt))
 		}
 	}
 	var walk func(self int, body []evmInstr, ev *frameEv)
@@ -1097,6 +1149,7 @@ func evmClass(in evmInput, pre evmObs, root *frameEv, prop string) string {
 		return pending && (s.P.Method == "delegate" || s.P.Method == "undelegate" || s.P.Method == "withdraw" || s.P.Method == "claim")
 	}
 	k9 := func(s pcallSite) bool { return s.P.Method == "delegate" && s.P.Who == aO && s.Caller != aO && txOK }
+	k9t := func(s pcallSite) bool { return s.P.Method == "ibctransfer" && s.P.Who == aO && s.Caller != aO && txOK }
 	switch prop {
 	case "C05":
 		// only the revert-related class is a C05 finding
@@ -1119,6 +1172,8 @@ func evmClass(in evmInput, pre evmObs, root *frameEv, prop string) string {
 		return "evm:rewards-paid-out-by-precompile" // K4 / K6
 	case any(k9):
 		return "evm:contract-moves-origin-funds" // K9
+	case any(k9t):
+		return "evm:contract-transfers-origin-funds" // K15
 	}
 	return ""
 }
@@ -1132,13 +1187,13 @@ func evmGenP(r *Rng, caller int, s evmSetup) *evmPCall {
 	case 4:
 		who = r.Intn(5)
 	}
-	m := []string{"delegate", "delegate", "undelegate", "withdraw", "withdraw", "setwithdraw", "claim"}[r.Intn(7)]
+	m := []string{"delegate", "delegate", "undelegate", "withdraw", "withdraw", "setwithdraw", "claim", "ibctransfer", "ibctransfer"}[r.Intn(9)]
 	if (m == "withdraw" || m == "undelegate") && bigOf(s.Deleg[who]).Sign() == 0 && r.Chance(85) {
 		m = "delegate"
 	}
 	p := &evmPCall{Method: m, Who: who}
 	switch m {
-	case "delegate":
+	case "delegate", "ibctransfer":
 		b := bigOf(s.Bal[who])
 		switch r.Intn(8) {
 		case 0:
@@ -1164,7 +1219,7 @@ func evmGenP(r *Rng, caller int, s evmSetup) *evmPCall {
 	case "setwithdraw":
 		p.To = r.Intn(5)
 		if r.Chance(25) {
-			p.To = 5 + r.Intn(7) // a precompile or module address: the bank refuses those as withdraw address
+			p.To = 5 + r.Intn(9) // a precompile or module address: the bank refuses those as withdraw address (the escrow account, 13, is allowed)
 		}
 	}
 	return p
@@ -1229,7 +1284,7 @@ func evmGen(r *Rng) evmInput {
 		s.Reward = new(big.Int).Mul(big.NewInt(int64(10+r.Intn(990))), new(big.Int).Exp(big.NewInt(10), big.NewInt(15), nil)).String()
 	}
 	for g := aC1; g <= aC3; g++ {
-		for _, kind := range []string{"delegate", "undelegate"} {
+		for _, kind := range []string{"delegate", "undelegate", "transfer"} {
 			if r.Chance(75) {
 				gr := evmGrant{Grantee: g, Kind: kind}
 				if r.Chance(40) {
@@ -1248,7 +1303,7 @@ func evmGen(r *Rng) evmInput {
 		if in.P.Who != aO && r.Chance(70) {
 			in.P.Who = aO
 		}
-		in.To = aPS
+		in.To, _ = evmBaseEnv().packP(in.P)
 		if r.Chance(90) {
 			in.Value = "0"
 		}
